@@ -64,6 +64,8 @@ harness("texelutil", ["common/netload.cpp"], ["apputil", "utillib", "texellib"],
         variants=("rel", "asan", "tsan"), ld="-lgsl -lgslcblas")
 harness("refchess-cli", ["common/refchess.cpp", "common/refchess_cli.cpp"], [],
         variants=("rel",))
+harness("posgen-cli", ["common/refchess.cpp", "common/vposgen.cpp", "common/posgen_cli.cpp"], [],
+        variants=("rel",))
 harness("h_rules", ["common/netload.cpp", "common/refchess.cpp", "common/vposgen.cpp", "h_rules.cpp"],
         ["texellib"])
 harness("h_eval", ["common/netload.cpp", "common/refchess.cpp", "common/vposgen.cpp", "h_eval.cpp"],
